@@ -496,3 +496,90 @@ m('eq5-ownshandle-walk-forward', 'callbacklist.h', """			while(node->previous) {
 				node = node->next;
 			}
 			return node == tail;""", 'C01,C02,C03', 'silent')
+
+# ---------------- behaviour-preserving refactorings (probe batch 6: heterogeneous queue / dispatcher, enqueue) -------
+m('eq6-heter-enqueue-local-item', 'hetereventqueue.h', """		const EventType_ e = GetEvent::getEvent(std::forward<T>(first), args...);
+		doEnqueueItem(QueuedItemType(
+			PrototypeInfo::index,
+			e,
+			&HeterEventQueueBase::doDispatchItem<PrototypeInfo>,
+			typename PrototypeInfo::ArgsTuple(std::forward<Args>(args)...)
+		));
+""", """		const EventType_ e = GetEvent::getEvent(std::forward<T>(first), args...);
+		QueuedItemType queuedItem(
+			PrototypeInfo::index,
+			e,
+			&HeterEventQueueBase::doDispatchItem<PrototypeInfo>,
+			typename PrototypeInfo::ArgsTuple(std::forward<Args>(args)...)
+		);
+		doEnqueueItem(std::move(queuedItem));
+""", 'C14,C05,C07,C08,C09,C20', 'silent')
+m('eq6-heter-remove-and', 'hetereventdispatcher.h', """		CallbackList_ * callableList = doFindCallableList(event);
+		if(callableList) {
+			return callableList->remove(handle);
+		}
+
+		return false;
+	}
+
+	bool hasAnyListener""", """		CallbackList_ * callableList = doFindCallableList(event);
+		return callableList != nullptr && callableList->remove(handle);
+	}
+
+	bool hasAnyListener""", 'C14,C04,C03', 'silent')
+m('eq6-dispatcher-hasany-ternary', 'eventdispatcher.h', """		const CallbackList_ * callableList = doFindCallableList(event);
+		if(callableList) {
+			return ! callableList->empty();
+		}
+
+		return false;
+	}
+
+	bool ownsHandle""", """		const CallbackList_ * callableList = doFindCallableList(event);
+		return callableList ? ! callableList->empty() : false;
+	}
+
+	bool ownsHandle""", 'C04,C03,C01', 'silent')
+m('eq6-enqueue-notify-local', 'hetereventqueue.h', """		if(doCanProcess()) {
+			queueListConditionVariable.notify_one();
+		}
+	}
+
+	template <typename T>
+	void doEnqueueItem""", """		const bool canProcess = doCanProcess();
+		if(canProcess) {
+			queueListConditionVariable.notify_one();
+		}
+	}
+
+	template <typename T>
+	void doEnqueueItem""", 'C07,C14', 'silent')
+
+# ---------------- behaviour-preserving refactorings (probe batch 7) --------------------------------------------
+m('eq7-traversal-cond-order', 'callbacklist.h', """			if(node->counter != removedCounter && counter >= node->counter) {
+				if(! f(node)) {
+					return false;
+				}
+			}""", """			if(counter >= node->counter && node->counter != removedCounter) {
+				if(! f(node)) {
+					return false;
+				}
+			}""", 'C01,C02,C19,C12', 'silent')
+m('eq7-nextcounter-named-zero', 'callbacklist.h', "		if(result == 0) { // overflow, let's reset all nodes' counters.", "		if(result == removedCounter) { // overflow, let's reset all nodes' counters.", 'C19,C02', 'silent')
+m('eq7-heterfilter-direct-return', 'mixins/mixinheterfilter.h', """		if(! filterList.template forEachIf<void (Args...)>([&args...](const typename std::function<bool (Args...)> & callback) -> bool {
+			return callback(std::forward<Args>(args)...);
+		})
+			) {
+			return false;
+		}
+
+		return true;""", """		return filterList.template forEachIf<void (Args...)>([&args...](const typename std::function<bool (Args...)> & callback) -> bool {
+			return callback(std::forward<Args>(args)...);
+		});""", 'C12,C14', 'silent')
+m('eq7-wrap-walk-for', 'callbacklist.h', """				NodePtr node = head;
+				while(node) {
+					node->counter = 1;
+					node = node->next;
+				}""", """				for(NodePtr node = head; node; node = node->next) {
+					node->counter = 1;
+				}""", 'C19,C02,C03', 'silent')
